@@ -1,5 +1,5 @@
 (* C18 — Invalid requests are reported as errors; nothing is emitted (builder state machine). *)
-From Avo Require Import Base.Prelude Base.Str Model.Data Model.Builder Proofs.BuilderProofs.
+From Avo Require Import Base.Prelude Base.Str Model.Data Model.Builder Model.PassFramework Proofs.BuilderProofs Proofs.PassFrameworkProofs.
 Open Scope Z_scope.
 
 (* for every history of builder calls: an error is recorded for each builder-time fault (operands
@@ -29,3 +29,20 @@ Example builder_example :
   /\ count_faults b_init [BInstr true; BFunction; BSignature true; BLoad CompOK; BLoad CompNoMov; BInstr false; BStaticGlobal; BAddDatum 0 8; BAddDatum 4 8; BAppendDatum 1] = 4%nat.
 Proof. split; reflexivity. Qed.
 Print Assumptions builder_example.
+
+(* compile-time faults (undefined or duplicate label, memory operand without base, unsatisfiable
+   allocation, frameless base-pointer write, ...) in a file of several functions: the model of the pass
+   framework (a function pass stops at the first function it refuses, the concatenation at the first
+   failing pass; compared with the real pass.Compile on files built from refused and accepted
+   functions, Gen/C09/Files.v and Gen/C15/Files.v) refuses the file exactly when some function is
+   refused on its own, wherever it stands in the file, and the error it reports is that of one of the
+   functions *)
+Theorem file_refused_iff_some_function_is : forall npasses fs,
+  (forall a, In a fs -> snd a <> 0%N -> (1 <= fst a /\ fst a < 1 + N.of_nat npasses)%N) ->
+  (compile_file npasses fs = 0%N <-> forall a, In a fs -> snd a = 0%N).
+Proof. intros npasses fs H. unfold compile_file. apply compile_zero_iff_all_accepted. exact H. Qed.
+Print Assumptions file_refused_iff_some_function_is.
+Theorem file_error_is_a_functions_error : forall npasses fs c,
+  compile_file npasses fs = c -> c <> 0%N -> exists s, In (s, c) fs.
+Proof. intros npasses fs c. unfold compile_file. apply compile_error_is_some_functions. Qed.
+Print Assumptions file_error_is_a_functions_error.
